@@ -11,7 +11,7 @@ class CHECK(Check):
     entry = "REGFILE"
     theorems = ["C18_generic_progress", "C18_text_register", "C18_binary_register", "C18_block", "C18_section"]
     rule = ("contents x component lists x storage x file families, each read under a deterministic call budget "
-            "c0 + c1*(len(content)+1) (a counter of Python call events, never wall-clock): (a) register files, text: garbage, "
+            "c0 + c1*(len(content)+1) (a counter of Python call events, never wall-clock; a quarter of the cases are read through a file on disk instead of in-memory content): (a) register files, text: garbage, "
             "blank lines, lines matching nothing, every content of <=3 lines over a small pool; (b) register files, binary: "
             "every byte string of length <=3 over {ident byte, NUL, newline, 0xFF-free garbage} plus random strings with "
             "truncated records, for record layouts of 1-3 types and peek windows 1..identifier width; (c) block files, text "
@@ -86,24 +86,37 @@ class CHECK(Check):
 
     nonterminations = 0
 
+    TMP = None
+
     def impl(self, case):
         # once many cases have exhausted their budget the verdict is clear; do not burn the budget thousands of times
         if CHECK.nonterminations >= 25:
             return {"terminated": True, "skipped_after_many_nonterminations": True}
         content = case["content"].encode("latin-1") if case["binary"] else case["content"]
         budget = 20000 + 1500 * (len(content) + 1)
+        import os, hashlib
+        via_path = int(hashlib.sha1(repr(case).encode()).hexdigest(), 16) % 4 == 0 and "\r" not in case["content"] and "\x00" not in case["content"]
+        if via_path:
+            d = os.path.join(lib.SCRATCH, "tmp_c18")
+            os.makedirs(d, exist_ok=True)
+            path = os.path.join(d, "in.dat")
+            with open(path, "wb") as fh:
+                fh.write(content if case["binary"] else content.encode("utf-8"))
+            content_arg = path
+        else:
+            content_arg = content
         try:
             with lib.budget(budget):
                 if case["fam"] == "reg":
                     regs = [reglib.mk_register_class(rd, i) for i, rd in enumerate(case["defs"])]
                     F = reglib.mk_file_class(regs, case["binary"])
-                    f = F.read(content, case["linesize"]) if case["binary"] else F.read(content)
+                    f = F.read(content_arg, case["linesize"]) if case["binary"] else F.read(content_arg)
                 elif case["fam"] == "block":
                     blocks = [bl.mk_block_class(bd, i, case["binary"]) for i, bd in enumerate(case["blocks"])]
-                    f = bl.mk_blockfile_class(blocks, case["binary"]).read(content)
+                    f = bl.mk_blockfile_class(blocks, case["binary"]).read(content_arg)
                 else:
                     secs = [bl.mk_section_class(sd, i) for i, sd in enumerate(case["secs"])]
-                    f = bl.mk_sectionfile_class(secs).read(content)
+                    f = bl.mk_sectionfile_class(secs).read(content_arg)
                 n = 0
                 for _ in f.data:
                     n += 1
